@@ -1,6 +1,6 @@
 (** C17 — Databases crossing the 1 GiB lock page.  All statements are for every
     commit size; page sizes are the eight valid ones (finite sweep). *)
-From Coq Require Import List NArith.
+From Coq Require Import List NArith Bool.
 From LS Require Import Base.PMap Ltx.File Ltx.Snapshot Ltx.Apply Ltx.Compact Ltx.SnapshotProofs Ltx.Proofs.
 Import ListNotations.
 Open Scope N_scope.
@@ -18,6 +18,14 @@ Theorem snapshot_pgnos : forall ps commit,
   forall p, In p (db_pgnos (lockPgno ps) commit) <-> 1 <= p <= commit /\ p <> lockPgno ps.
 Proof. intros. split; [apply db_pgnos_spec|apply db_pgnos_In]. Qed.
 Print Assumptions snapshot_pgnos.
+
+(** and each of those pages is encoded from its own source: the WAL frame of the
+    page map, else the database file at (pgno-1)*pageSize *)
+Theorem snapshot_content : forall ps commit pm pg,
+  pm_get pg (db_content ps commit pm) =
+  if (1 <=? pg) && (pg <=? commit) && negb (pg =? lockPgno ps) then Some (db_source ps pm pg) else None.
+Proof. exact db_content_spec. Qed.
+Print Assumptions snapshot_content.
 
 (** the growth fill of writeLTXFromWAL never emits the lock page; the lock page
     reaches the encoder only if the WAL page map holds it; every file is
